@@ -1,6 +1,6 @@
 (* C19 — property theorems only.  Statements are full; proofs are [exact lemma]. *)
 From Coq Require Import List NArith ZArith Bool Permutation.
-From LE Require Import Sync.PeerSelect Sync.PeerSelectProofs Sync.Handlers Sync.HandlersProofs Sync.Converge Sync.ConvergeProofs Sync.Download.
+From LE Require Import Sync.PeerSelect Sync.PeerSelectProofs Sync.Handlers Sync.HandlersProofs Sync.Converge Sync.ConvergeProofs Sync.Download Sync.Compose.
 Import ListNotations.
 Local Open Scope N_scope.
 
@@ -97,7 +97,8 @@ Proof. exact start_search_height_spec. Qed.
    selection and the common-block search rounds are covered by their own theorems, not composed in *)
 Theorem C19_honest_peer_converges_partial : forall valid rs cs n pre cid own blocks th r2,
   chain n = pre ++ cid :: own -> ~ In cid pre ->
-  (finalized n <= length pre)%nat -> (length own <= r2)%nat -> (th - length pre <= r2)%nat ->
+  (finalized n <= length pre)%nat -> (length own <= r2)%nat -> (length pre <= th)%nat -> (th - length pre <= r2)%nat ->
+  N.of_nat th < 4294967296 ->
   all_valid valid (pre ++ [cid]) blocks ->
   fast_sync valid rs cs n (Some cid) blocks EndOk th r2 =
     ({| chain := pre ++ cid :: blocks; temp := []; finalized := finalized n; banned := banned n |}, Synced) /\
@@ -112,7 +113,8 @@ Qed.
    blocks are restored and the peer is banned *)
 Theorem C19_failed_fast_sync_restores_and_bans : forall valid n pre cid own good bad rest th r2,
   chain n = pre ++ cid :: own -> ~ In cid pre ->
-  (finalized n <= length pre)%nat -> (length own <= r2)%nat -> (th - length pre <= r2)%nat ->
+  (finalized n <= length pre)%nat -> (length own <= r2)%nat -> (length pre <= th)%nat -> (th - length pre <= r2)%nat ->
+  N.of_nat th < 4294967296 ->
   all_valid valid (pre ++ [cid]) good -> valid ((pre ++ [cid]) ++ good) bad = false ->
   all_valid valid (pre ++ [cid]) own ->
   let '(n', o) := fast_sync valid false true n (Some cid) (good ++ bad :: rest) EndOk th r2 in
@@ -122,7 +124,8 @@ Proof. exact failed_fast_sync_restores_and_bans. Qed.
 (* ORIGINAL code: only when the FIRST applied block is the invalid one and no temp block was left behind *)
 Theorem C19_failed_fast_sync_orig_first_block_case : forall valid n pre cid own bad rest th r2,
   chain n = pre ++ cid :: own -> ~ In cid pre -> temp n = [] ->
-  (finalized n <= length pre)%nat -> (length own <= r2)%nat -> (th - length pre <= r2)%nat ->
+  (finalized n <= length pre)%nat -> (length own <= r2)%nat -> (length pre <= th)%nat -> (th - length pre <= r2)%nat ->
+  N.of_nat th < 4294967296 ->
   valid (pre ++ [cid]) bad = false -> all_valid valid (pre ++ [cid]) own ->
   let '(n', o) := fast_sync valid true false n (Some cid) (bad :: rest) EndOk th r2 in
   chain n' = chain n /\ banned n' = true /\ o = Failed.
@@ -142,6 +145,14 @@ Theorem C19_failed_fast_sync_stale_temp_refuted :
     let '(n', o) := fast_sync valid false false n (Some cid) blocks EndOk th r2 in
     chain n' <> chain n /\ banned n' = false.
 Proof. exact failed_fast_sync_stale_temp_refuted. Qed.
+
+(* the two-round test is uint32 arithmetic: a peer naming a common block ABOVE the height of the block it offered makes
+   `block height - common height` wrap and the fast sync is abandoned with nothing touched *)
+Theorem C19_fast_sync_common_above_block_aborts : forall valid rs cs n cid hc blocks e th r2,
+  index_of cid (chain n) = Some hc -> (finalized n <= hc)%nat -> (th < hc)%nat ->
+  N.of_nat hc < 4294967296 -> N.of_nat r2 + N.of_nat (hc - th) < 4294967296 ->
+  fast_sync valid rs cs n (Some cid) blocks e th r2 = (n, Aborted).
+Proof. exact fast_sync_common_above_block_aborts. Qed.
 
 (* a truncated stream or a statelessly invalid block leaves a fast-syncing node's chain untouched *)
 Theorem C19_fast_sync_bad_stream_no_change : forall valid rs cs n common blocks e th r2, e <> EndOk ->
@@ -185,6 +196,45 @@ Theorem C19_download_orig_refuted :
   (forall fuel k last endid acc, snd (download_orig (fun _ => Some []) k fuel last endid acc) = DlOutOfFuel) /\
   (forall fuel k last acc, length (fst (download_orig (fun _ => Some [(1%nat, 7)]) k fuel last 9 acc)) = (length acc + fuel)%nat).
 Proof. split; [exact download_orig_unbounded|exact download_orig_grows]. Qed.
+
+(* ---------------------------------------------------------------- composition: handler + downloader + state machines *)
+(* the downloader against the honest getBlocksFromID handler delivers exactly the responder's blocks after the start block
+   up to its tip, across as many 103-block requests as needed *)
+Theorem C19_honest_download_delivers_suffix : forall c i l tipid fuel,
+  skipn (S i) (ids c) = l ++ [tipid] -> ~ In tipid l -> (length l < fuel)%nat ->
+  download (honest_resp c i) 0 fuel (N.to_nat (g0 c) + i) (N.to_nat (g0 c) + i + length l + 1) tipid [] =
+  (numb (S (N.to_nat (g0 c) + i)) (skipn (S i) (ids c)), DlOk).
+Proof. exact honest_download_delivers_suffix. Qed.
+
+(* honest peer with chain pre ++ cid :: suffix (any length), all its blocks valid: block sync, and fast sync within two
+   rounds, end exactly on the peer's chain; the delivered blocks are no longer a hypothesis but the downloader's result
+   against the handler *)
+Theorem C19_honest_sync_ends_on_peer_chain : forall valid rs cs n c pre cid own l tipid fuel th r2,
+  g0 c = 0 -> ids c = pre ++ cid :: l ++ [tipid] -> ~ In tipid l ->
+  Converge.chain n = pre ++ cid :: own -> ~ In cid pre -> (finalized n <= length pre)%nat ->
+  all_valid valid (pre ++ [cid]) (l ++ [tipid]) -> (length l < fuel)%nat ->
+  let '(delivered, e) := download (honest_resp c (length pre)) 0 fuel (length pre) (length pre + length l + 1) tipid [] in
+  block_sync valid n (Some cid) (map snd delivered) (ending_of e) =
+    ({| Converge.chain := ids c; temp := []; finalized := finalized n; banned := banned n |}, Synced) /\
+  ((length own <= r2)%nat -> (length pre <= th)%nat -> (th - length pre <= r2)%nat -> N.of_nat th < 4294967296 ->
+   fast_sync valid rs cs n (Some cid) (map snd delivered) (ending_of e) th r2 =
+    ({| Converge.chain := ids c; temp := []; finalized := finalized n; banned := banned n |}, Synced)).
+Proof. exact honest_sync_ends_on_peer_chain. Qed.
+
+(* the common block returned by block sync's three-trial search (uint32 arithmetic) lies on the own chain at a probed
+   height, not below the finalized height, whatever offered ID the peer picks *)
+Theorem C19_common_search_not_below_finalized : forall c answer fin n h id,
+  wf_chain c -> 0 < n -> (forall offered x, answer offered = Some x -> In x offered) -> fin + 10 * n < W32 ->
+  common_search c answer fin n = SFound h id -> fin <= h /\ height_of_id c id = Some h.
+Proof. exact common_search_not_below_finalized. Qed.
+
+(* block sync never restores *)
+Theorem C19_block_sync_failure_shape : forall valid n pre cid own good bad rest e,
+  Converge.chain n = pre ++ cid :: own -> ~ In cid pre -> (finalized n <= length pre)%nat ->
+  all_valid valid (pre ++ [cid]) good -> valid ((pre ++ [cid]) ++ good) bad = false ->
+  block_sync valid n (Some cid) (good ++ bad :: rest) e =
+  ({| Converge.chain := pre ++ cid :: good; temp := save_from (S (length pre)) own (temp n); finalized := finalized n; banned := banned n |}, Failed).
+Proof. exact block_sync_failure_shape. Qed.
 
 (* non-vacuity *)
 Example C19_ex_best : best_spec_b w_infos (Build_ni 10 5 1 1) = true /\ valid_result_b w_infos (Build_ni 10 5 1 1) = true.
